@@ -538,8 +538,9 @@ class Oracle:
                 an = anomalies_of(conn, req['ns'], got ^ want, keys)
                 if an:
                     cause = sorted(an)[0]
+            direction = 'extra' if not (want - got) else ('missing' if not (got - want) else 'both')
             self.violate({'kind': 'characterisation', 'op': opn, 'level': 'instance', 'cause': cause,
-                          'extra': len(got - want), 'missing': len(want - got)}, self.case(req),
+                          'direction': direction}, self.case(req),
                          {'got': sorted(map(str, got)), 'expected': sorted(map(str, want))})
         self.count('oracle:characterised')
         if want:
